@@ -127,6 +127,112 @@ func init() {
 	add("sort.Ints", "sorts the slice ascending in place; result is a permutation", modelSortBasic(SInt, false), 0)
 }
 
+// modelSortLess: sort.Slice / sort.SliceStable / sort.Sort / sort.Stable.
+// Assumed contract: afterwards the slice holds a permutation of its old contents (witnessed by a fresh bijection) in which
+// no later element is "less" than an earlier one, where less is the caller's comparator evaluated symbolically on the
+// new contents; the stable variants additionally keep the original order of elements that are equivalent under less
+// (evaluated on the old contents).  The comparator is assumed to be a strict weak order.
+func modelSortLess(viaInterface bool, stable bool) func(x *Exec, st *State, fr *Frame, call *ssa.Call, args []Val) ([]*State, bool) {
+	return func(x *Exec, st *State, fr *Frame, call *ssa.Call, args []Val) ([]*State, bool) {
+		var s *Term          // the slice being sorted
+		var elem types.Type  // its element type
+		var lessFn *ssa.Function
+		var lessBind []Val
+		var recv []Val
+		boxed := args[0].T
+		if boxed == nil || boxed.Kind != kApp || !strings.HasPrefix(boxed.Op, "box_") {
+			fail("sort: argument is not a statically known value")
+		}
+		var bt types.Type
+		for _, tt := range x.TI.tagTypes {
+			if x.TI.boxName(tt) == boxed.Op {
+				bt = tt
+			}
+		}
+		if viaInterface {
+			// sort.Sort(x): x is a pointer to a named slice type with Len/Less/Swap
+			pt, ok := types.Unalias(bt).Underlying().(*types.Pointer)
+			if !ok {
+				fail("sort.Sort on %s: only pointers to slice types are modelled", bt)
+			}
+			sl, ok := types.Unalias(pt.Elem()).Underlying().(*types.Slice)
+			if !ok {
+				fail("sort.Sort on %s: only pointers to slice types are modelled", bt)
+			}
+			elem = sl.Elem()
+			ptr := boxed.Args[0]
+			hs := x.TI.SortOf(pt.Elem())
+			s = Select(x.heapGet(st, hpComp(hs), hpSort(hs)), ptr)
+			lessFn = x.prog.LookupMethod(bt, nil, "Less")
+			if lessFn == nil {
+				for _, pkg := range x.prog.AllPackages() {
+					if m := x.prog.LookupMethod(bt, pkg.Pkg, "Less"); m != nil {
+						lessFn = m
+						break
+					}
+				}
+			}
+			if lessFn == nil {
+				fail("sort.Sort: no Less method found for %s", bt)
+			}
+			recv = []Val{{T: ptr}}
+		} else {
+			sl, ok := types.Unalias(bt).Underlying().(*types.Slice)
+			if !ok {
+				fail("sort.Slice on non-slice %s", bt)
+			}
+			elem = sl.Elem()
+			s = boxed.Args[0]
+			if args[1].Clo == nil {
+				fail("sort.Slice: comparator is not a statically known closure")
+			}
+			lessFn, lessBind = args[1].Clo.fn, args[1].Clo.bindings
+		}
+		es := x.TI.SortOf(elem)
+		comp, cs := hsComp(es), hsSort(es)
+		x.frameCheckCond(st, Cmp(">", SlLen(s), IntLit(1)), SlArr(s), "call.sort")
+		pre := st.clone()
+		h := x.heapGet(st, comp, cs)
+		row := x.freshVar(comp+"_sortedrow", ArraySort(SInt, es))
+		x.rowWfAssume(st, row, comp, st.alloc)
+		st.heap[comp] = Store(h, SlArr(s), row)
+		x.n++
+		perm, inv := "perm_"+itoa(x.n), "perminv_"+itoa(x.n)
+		x.U.Declare(perm, SInt, SInt)
+		x.U.Declare(inv, SInt, SInt)
+		i, j := Var("si", SInt), Var("sj", SInt)
+		n := SlLen(s)
+		inr := func(v *Term) *Term { return And(Cmp(">=", v, IntLit(0)), Cmp("<", v, n)) }
+		oldRow := Select(h, SlArr(s))
+		pi := App(perm, SInt, i)
+		st.assume(Forall([]*Term{i}, Implies(inr(i), And(inr(pi), Eq(App(inv, SInt, pi), i), Eq(Select(row, Sidx(SlOff(s), i)), Select(oldRow, Sidx(SlOff(s), pi))))), []*Term{pi}))
+		ii := App(inv, SInt, i)
+		st.assume(Forall([]*Term{i}, Implies(inr(i), And(inr(ii), Eq(App(perm, SInt, ii), i))), []*Term{ii}))
+		k := Var("sk", SInt)
+		st.assume(Forall([]*Term{k}, Implies(Or(Cmp("<", k, SlOff(s)), Cmp(">=", k, Arith("+", SlOff(s), n))),
+			Eq(Select(row, k), Select(oldRow, k))), []*Term{Select(row, k)}))
+		// no inversion in the new contents
+		lessNew := x.boolSummary(st, lessFn, lessBind, append(append([]Val{}, recv...), Val{T: j}, Val{T: i}))
+		st.assume(Forall([]*Term{i, j}, Implies(And(inr(i), inr(j), Cmp("<", i, j)), Not(lessNew))))
+		if stable {
+			pj := App(perm, SInt, j)
+			l1 := x.boolSummary(pre, lessFn, lessBind, append(append([]Val{}, recv...), Val{T: pi}, Val{T: pj}))
+			l2 := x.boolSummary(pre, lessFn, lessBind, append(append([]Val{}, recv...), Val{T: pj}, Val{T: pi}))
+			st.assume(Forall([]*Term{i, j}, Implies(And(inr(i), inr(j), Cmp("<", i, j), Not(l1), Not(l2)), Cmp("<", pi, pj)), []*Term{pi, pj}))
+		}
+		fr.vals[call] = Val{}
+		fr.idx++
+		return nil, true
+	}
+}
+
+func init() {
+	extModels["sort.Slice"] = &extModel{name: "sort.Slice", doc: "in-place sort: permutation of the old contents without inversions under the comparator (assumed strict weak order)", apply: modelSortLess(false, false), writes: []int{0}}
+	extModels["sort.SliceStable"] = &extModel{name: "sort.SliceStable", doc: "as sort.Slice, and equivalent elements keep their order", apply: modelSortLess(false, true), writes: []int{0}}
+	extModels["sort.Sort"] = &extModel{name: "sort.Sort", doc: "in-place sort through Len/Less/Swap of a pointer-to-slice type: permutation without inversions under Less", apply: modelSortLess(true, false), writes: []int{0}}
+	extModels["sort.Stable"] = &extModel{name: "sort.Stable", doc: "as sort.Sort, stable", apply: modelSortLess(true, true), writes: []int{0}}
+}
+
 func (x *Exec) externalModel(fn *ssa.Function) *extModel {
 	return extModels[fn.String()]
 }
